@@ -63,7 +63,7 @@ def run(tier, seed):
         "traces_validated_against_impl": n_runs, "exhaustive": False,
         "design_model_runs": [{k2: mc[k2] for k2 in ("cfg", "generated", "distinct", "depth", "wall_s")}],
         "design_models_exhaustive": True, "design_liveness_checked": ["SlotEventuallyFree", "EventuallyClean"],
-        "generator": {"cfg": "GenRxSlot.cfg", "schedules": len(beh), "harness_made": 5},
+        "generator": {"cfg": "GenRxSlot.cfg", "schedules": len(beh), "harness_made": 11},
         "replay": summ,
         "trace_validation": {"spec": "RxSlotTrace.tla (Layer P = RxSlotProp.tla)", "events": len(ev), "states": states, "rejected_runs": len(rej),
                              "app_receipts": sum(1 for e in ev if e.get("ev") == "AppRx"), "probes_answered": sum(1 for e in ev if e.get("ev") == "ProbeAnswered")},
